@@ -18,6 +18,10 @@ NDArray::NDArray(DataType dtype, NDSize dims) : dataType(dtype), extends(dims) {
 
 
 void NDArray::allocate_space() {
+    if (dataType == DataType::String) {
+        // the store is plain bytes; string I/O transfers std::string objects, which it cannot own
+        throw std::invalid_argument("NDArray cannot hold strings");
+    }
     size_t type_size = data_type_to_size(dataType);
 	ndsize_t bytes = extends.nelms() * type_size;
 	size_t alloc_size = check::fits_in_size_t(bytes, "Cannot allocate storage (exceeds memory)");
